@@ -907,11 +907,23 @@ def delete_pointless_statements(source: str) -> str:
                     yield child, None
 
 
+def _contains_yield(node: ast.AST) -> bool:
+    """Determine if node has a yield of the function it is in, which makes that a generator."""
+    if isinstance(node, (ast.Yield, ast.YieldFrom)):
+        return True
+    if isinstance(node, (ast.FunctionDef, ast.AsyncFunctionDef, ast.ClassDef, ast.Lambda)):
+        return False
+
+    return any(_contains_yield(child) for child in ast.iter_child_nodes(node))
+
+
 def _iter_unreachable_nodes(body: Iterable[ast.AST]) -> Iterable[ast.AST]:
     after_block = False
     for node in body:
         if after_block:
-            yield node
+            # A yield that is never reached still is what makes the function a generator
+            if not _contains_yield(node):
+                yield node
             continue
         if core.is_blocking(node):
             after_block = True
@@ -1031,6 +1043,9 @@ def delete_unreachable_code(source: str) -> str:
             test_value = core.literal_value(node.test)
         except ValueError:
             continue
+
+        if _contains_yield(node):
+            continue  # Even if it is never reached, it is what makes the function a generator
 
         if isinstance(node, ast.While) and not test_value:
             if not node.orelse:  # The else clause of a loop that never runs always runs
@@ -2108,6 +2123,9 @@ def remove_dead_ifs(source: str) -> str:
             value = core.literal_value(node.test)
         except ValueError:
             continue
+
+        if _contains_yield(node):
+            continue  # Even if it is never reached, it is what makes the function a generator
 
         if isinstance(node, ast.While) and not value and not node.orelse:
             # The else clause of a loop that never runs always runs
